@@ -9,13 +9,26 @@ PROP = dict(
                "C05_flag.  The verdict on the code is the Coq monitor c05_subscribe: the PUBLISH packets following each "
                "SUBACK must be exactly the latest retained message of every matching topic computed from the history.",
     level_note="Trusted: as C03.  Which retained topics a filter selects is topic_matches (the trie walk scanMessages is C02).  "
-               "Retained message expiry is not exercised (C25).",
-    engines=[dict(hx="route", args=["c05"], model="route_c05")],
-    theorems=["C05_latest", "C05_store", "C05_rh", "C05_shared_none", "C05_unavailable", "C05_flag"],
-    model_files="coq/Session/Deliver.v",
+               "Retained message expiry is not exercised (C25).  Concurrency: C05_retain_atomic_all_schedules is about the "
+               "model in which RetainMessage's set + store is one atomic step under the index root lock (that the code has "
+               "this shape is re-read from the AST by C31's topics_rootlock); the split variant is refuted by a concrete "
+               "schedule (C05_split_refuted); the real index is exercised on forced schedules through one verif-tag schedule "
+               "point (commit 8460ea7), other interleavings only as the Go scheduler produces them.",
+    engines=[dict(hx="route", args=["c05"], model="route_c05"), dict(hx="topics_retainsched")],
+    theorems=["C05_latest", "C05_store", "C05_rh", "C05_shared_none", "C05_unavailable", "C05_flag",
+              "C05_retain_atomic_all_schedules"],
+    model_files="coq/Session/Deliver.v; coq/Topics/RetainConc.v (concurrency dimension: atomic model, split variant, checker)",
     rule="histories as for C03 biased to retained publishes (1/2 retained, 1/4 of those with empty payload), repeated "
          "subscriptions with Retain Handling 0/1/2, shared filters, retain available off in 1/6 of the histories.  "
-         "non-trivial = SUBSCRIBE step while something is retained or something was delivered",
+         "non-trivial = SUBSCRIBE step while something is retained or something was delivered.  "
+         "ADDED concurrency dimension (engine topics_retainsched, 900 / 15000 forced schedules on a real TopicsIndex): a "
+         "retained publish is parked at the schedule point retain.store (between set(...), which creates the topic's path, "
+         "and the store) while 1-2 other goroutines run the client Unsubscribe of a filter equal to the topic, a retained "
+         "clear on the topic or on a sibling, a Subscribe / Unsubscribe below it, another retained publish, or a Messages "
+         "query; it is then released; after quiescence Messages(f) for the exact filter and the wildcard filters that select "
+         "the topic (x/#, x/+, +/y, #), a clear, and the queries again.  Verdict by Topics.RetainConc.retain_engine: some "
+         "serial order consistent with every goroutine's order must explain every return value and every Messages result as "
+         "the latest retained publish per matching topic",
     exhaustive=False,
     modelled="server.go retainMessage/publishRetainedToClient/processSubscribe, topics.go RetainMessage (as a map)",
     assumptions=["no retained message expires during a history"],
